@@ -531,22 +531,31 @@ func runC03Concurrent(r *Run, sut *partSUT, g *refGate, specs []partSpec) {
 	for i := 0; i < nTasks; i++ {
 		rounds := 1 + t.Intn(4, "rounds")
 		type rd struct {
-			key string
-			set bool
-			add bool
-			v   int
+			key  string
+			set  bool
+			add  bool
+			hold bool // keep the token until the end of the task (capacity stays in use while limits and partitions change)
+			v    int
 		}
 		var rds []rd
 		for k := 0; k < rounds; k++ {
 			x := rd{key: keys[t.Intn(len(keys), "key")]}
 			if t.Chance(20, "set?") {
 				x.set, x.v = true, []int{1, 2, 3, 0, 6}[t.Intn(5, "v")]
-			} else if t.Chance(25, "add-dyn?") {
+			} else if t.Chance(20, "add-dyn?") {
 				x.add = true
+			} else {
+				x.hold = t.Chance(35, "hold-token")
 			}
 			rds = append(rds, x)
 		}
 		s.Go("caller", func(tk *Task) {
+			var later []func()
+			defer func() {
+				for i := len(later) - 1; i >= 0; i-- {
+					later[i]()
+				}
+			}()
 			for _, x := range rds {
 				if x.set {
 					tk.Begin("setlimit", x.v)
@@ -576,11 +585,18 @@ func runC03Concurrent(r *Run, sut *partSUT, g *refGate, specs []partSpec) {
 				if !ok {
 					continue
 				}
-				tk.Begin("release", x.key)
-				h2 := &histOp{op: tk.curOp, in: pgIn{kind: 1, bin: b, tok: id}}
-				hist = append(hist, h2)
-				tok.Release()
-				tk.End(nil)
+				rel := func() {
+					tk.Begin("release", x.key)
+					h2 := &histOp{op: tk.curOp, in: pgIn{kind: 1, bin: b, tok: id}}
+					hist = append(hist, h2)
+					tok.Release()
+					tk.End(nil)
+				}
+				if x.hold {
+					later = append(later, rel)
+					continue
+				}
+				rel()
 			}
 		})
 	}
@@ -603,6 +619,25 @@ func runC03Concurrent(r *Run, sut *partSUT, g *refGate, specs []partSpec) {
 	r.VirtNs = s.Now()
 	if s.Failed() != nil || s.Truncated {
 		return
+	}
+	// everything has returned: every share must be the one the final total limit gives (overlapping SetLimit calls
+	// must not leave the total from one and shares from the other)
+	finalL := sutLimit(sut)
+	for i, sp := range specs {
+		var bl int
+		var e error
+		if sut.kind == "lookup" {
+			bl, e = sut.lookup.BinLimit(sp.name)
+		} else {
+			bl, e = sut.pred.BinLimit(i)
+		}
+		if e != nil {
+			continue
+		}
+		if w := share(finalL, sp.k); bl != w {
+			r.Fail("share-mismatch", sut.kind+"/concurrent", "after all concurrent operations returned the total limit is %d but partition %s (fraction %d/32) has share %d, expected max(1, ceil(limit x fraction)) = %d", finalL, sp.name, sp.k, bl, w)
+			return
+		}
 	}
 	var ops []porcupine.Operation
 	refused := 0
